@@ -14,6 +14,10 @@
 (*   reading exists); the reading named by Deliver(prior, mode, .) must be the specification's sample.  *)
 (*   The parameter is owned by e.owner (model / observation); e.given = FALSE: nothing was attached, a, b *)
 (*   are the parameter's bounds and the prior is the default of its mode (InForce).                      *)
+(*   e.mtext: the spelling in which the mode was given ("": never given, the declared mode holds), e.cont: the      *)
+(*   container of the bounds object, e.pre: the number of compiles the optimizer had been through before, under      *)
+(*   other settings (the opposite mode, other bounds, no prior yet) -- the prior in force is InForce of the            *)
+(*   settings at the time of the last compile, whatever came before (MC_PriorHistory.tla: HistoryInv).               *)
 (* Stateless stream: the step always advances, rejected events are printed as <<"BAD",..>>. *)
 EXTENDS Priors, IOUtils, TLCExt
 VARIABLE l
@@ -86,6 +90,7 @@ WhyDeliver(e) ==
         m    == IF want = "pow10" THEN e.log ELSE e.lin
         bad  == IF e.owner = "model" THEN "delivered_to_model" ELSE "delivered_to_observation"
     IN  IF e.owner \notin Owners \/ (~e.given /\ e.mode = "log" /\ ~(e.a[2] = 1 /\ e.b[2] = 1)) THEN "unknown_op"
+        ELSE IF e.mtext # "" /\ ModeLookup(e.mtext) # e.mode THEN "unknown_op"     \* the text must name the mode of the event
         ELSE IF ~has THEN bad
         ELSE IF p.kind \in UniKinds
              THEN IF Close(m, e.S, RAdd(p.a, RMul(u1, RSub(p.b, p.a))), e.tol) THEN "ok" ELSE bad
